@@ -646,10 +646,205 @@ func c16BookPart(t *testing.T, rep *vfReport) {
 	rep.vfCompare("readlevel", ops, impl, nil)
 }
 
+// ---- Part D: the strict branch on a LIVE follower -------------------------------------
+//
+// Two slow STRONG reads are sent back to back through the leader. Strong reads go through the
+// log and are executed by every node's FSM, so the follower's FSM is busy for a while with each.
+// While it executes the second one it is BEHIND (it has received a command it has not applied)
+// and the entry it applied LAST (the first slow read) finished being applied long after the
+// leader appended it. A strict 'none' read with a bound well below that delay must be refused
+// with ErrStaleRead; with a bound far above it, and without strict, it must be served.
+func c16LiveStrictPart(t *testing.T, rep *vfReport) {
+	c := clu8NewCluster(t)
+	defer c.Close()
+	n0, err := c.NewNode()
+	if err != nil {
+		t.Fatalf("C16 harness: %v", err)
+	}
+	if err := c.Bootstrap(n0); err != nil {
+		t.Fatalf("C16 harness: %v", err)
+	}
+	f, err := c.NewNode()
+	if err != nil {
+		t.Fatalf("C16 harness: %v", err)
+	}
+	if err := n0.S.Join(joinRequest(f.Name, f.Addr, true)); err != nil {
+		t.Fatalf("C16 harness: join: %v", err)
+	}
+	if _, err := f.S.WaitForLeader(60 * time.Second); err != nil {
+		t.Fatalf("C16 harness: follower sees no leader")
+	}
+	if err := clu8Exec(n0.S, "CREATE TABLE c16d (id INTEGER PRIMARY KEY, v INTEGER)", "INSERT INTO c16d(v) VALUES(1)"); err != nil {
+		t.Fatalf("C16 harness: %v", err)
+	}
+	deadline := time.Now().Add(60 * time.Second)
+	for f.S.fsmIdx.Load() != n0.S.fsmIdx.Load() {
+		if time.Now().After(deadline) {
+			rep.Note("live strict: follower did not catch up; part skipped")
+			return
+		}
+		time.Sleep(10 * time.Millisecond)
+	}
+	size := 3000000
+	for attempt := 0; attempt < 4; attempt++ {
+		slow := fmt.Sprintf("SELECT count(*) FROM (WITH RECURSIVE c(x) AS (SELECT 1 UNION ALL SELECT x+1 FROM c WHERE x < %d) SELECT x FROM c)", size)
+		// how long the statement takes on the follower (plain local read, nothing to do with the log)
+		t0 := time.Now()
+		if _, _, err := clu8Query(f.S, slow, proto.ConsistencyLevel_NONE, 0); err != nil {
+			rep.Note("live strict: calibration read failed: %v", err)
+			return
+		}
+		d0 := time.Since(t0)
+		if d0 < 800*time.Millisecond {
+			size *= 2
+			continue
+		}
+		if !n0.S.IsLeader() {
+			rep.Note("live strict: leadership moved; part skipped")
+			return
+		}
+		idx0 := f.S.fsmIdx.Load()
+		type sr struct {
+			idx uint64
+			err error
+		}
+		ch := make(chan sr, 2)
+		strong := func() {
+			qr := queryRequestFromString(slow, false, false, false)
+			qr.Level = proto.ConsistencyLevel_STRONG
+			_, _, idx, err := n0.S.Query(context.Background(), qr)
+			ch <- sr{idx, err}
+		}
+		go strong()
+		go strong()
+		// wait until the follower has applied the FIRST slow read and holds the second unapplied
+		inWindow := false
+		wdl := time.Now().Add(60 * time.Second)
+		for time.Now().Before(wdl) {
+			fi, cci := f.S.fsmIdx.Load(), f.S.raftTn.CommandCommitIndex()
+			if fi == idx0+1 && cci >= idx0+2 {
+				inWindow = true
+				break
+			}
+			if fi >= idx0+2 {
+				break
+			}
+			time.Sleep(2 * time.Millisecond)
+		}
+		none := func(fresh time.Duration, strict bool) string {
+			qr := queryRequestFromString("SELECT v FROM c16d", false, false, false)
+			qr.Level, qr.Freshness, qr.FreshnessStrict = proto.ConsistencyLevel_NONE, int64(fresh), strict
+			_, _, _, err := f.S.Query(context.Background(), qr)
+			if err != nil {
+				return c16Canon(err)
+			}
+			return "served"
+		}
+		var tight, loose, lax string
+		if inWindow {
+			tight = none(d0/4, true)     // the last applied entry was applied >= ~d0 after it was appended
+			loose = none(time.Hour, true) // far above the delay
+			lax = none(d0/4, false)       // not strict: only leader contact counts
+			stillBehind := f.S.fsmIdx.Load() == idx0+1
+			rep.Count(fmt.Sprintf("live-strict:in-window still-behind-after-reads=%v", stillBehind))
+			inWindow = stillBehind
+		}
+		for i := 0; i < 2; i++ {
+			if r := <-ch; r.err != nil {
+				rep.Note("live strict: slow strong read failed: %v", r.err)
+			}
+		}
+		if !inWindow {
+			rep.Count("live-strict:window-missed")
+			size *= 2
+			continue
+		}
+		rep.Case(fmt.Sprintf("live-strict|%s|%s|%s", tight, loose, lax), true)
+		rep.Sample(map[string]interface{}{"scenario": "live-strict", "slow_statement_takes": d0.String(), "bound": (d0 / 4).String(), "strict_tight": tight, "strict_1h": loose, "non_strict_tight": lax})
+		replay := map[string]interface{}{"schedule": []string{"two slow STRONG reads through the leader", "follower applied the first (late), holds the second unapplied", "none read on the follower"}, "statement_duration": d0.String(), "bound": (d0 / 4).String()}
+		if tight != "err:stale" {
+			rep.Fail("strict-none-read-served-on-behind-follower",
+				fmt.Sprintf("follower is behind (last applied entry = a strong read that takes about %s to execute, so it was applied about that long after the leader appended it; the next command is received but not applied) and in contact with the leader: a strict none read with freshness %s must be refused with ErrStaleRead, got %s", d0.Round(time.Millisecond), (d0/4).Round(time.Millisecond), tight), replay)
+		}
+		if loose != "served" {
+			rep.Fail("strict-none-read-refused-within-bound:live", fmt.Sprintf("same state, freshness 1h strict: got %s", loose), replay)
+		}
+		if lax != "served" {
+			rep.Fail("non-strict-none-read-refused-in-contact:live", fmt.Sprintf("same state, freshness %s not strict, follower in contact with the leader: got %s", (d0/4).Round(time.Millisecond), lax), replay)
+		}
+		c16SnapshotInstalledNode(t, rep, c, n0)
+		return
+	}
+	rep.Note("live strict: could not catch the follower between the two slow reads")
+}
+
+// c16SnapshotInstalledNode: a node that comes up through a snapshot install (fsmRestore) has its
+// FSM index at the snapshot index and NO entry applied one by one: the two times are unset, and
+// a strict none read within the contact bound is served (the rule speaks of the last applied
+// ENTRY). Compared with the model's Book after `bookrestore`.
+func c16SnapshotInstalledNode(t *testing.T, rep *vfReport, c *clu8Cluster, n0 *clu8Node) {
+	if !n0.S.IsLeader() {
+		return
+	}
+	// compact the leader's log so that a new node can only catch up by snapshot
+	for i := 0; i < 2; i++ {
+		if err := clu8Exec(n0.S, fmt.Sprintf("INSERT INTO c16d(v) VALUES(%d)", 100+i)); err != nil {
+			return
+		}
+		if err := n0.S.Snapshot(1); err != nil {
+			rep.Note("snapshot-installed node: snapshot declined: %v", err)
+		}
+	}
+	g, err := c.NewNode()
+	if err != nil {
+		return
+	}
+	if err := n0.S.Join(joinRequest(g.Name, g.Addr, false)); err != nil {
+		rep.Note("snapshot-installed node: join failed: %v", err)
+		return
+	}
+	deadline := time.Now().Add(60 * time.Second)
+	for g.S.fsmIdx.Load() == 0 || time.Since(g.S.raft.LastContact()) > 5*time.Second {
+		if time.Now().After(deadline) {
+			rep.Note("snapshot-installed node: did not receive a snapshot within 60 s")
+			return
+		}
+		time.Sleep(20 * time.Millisecond)
+	}
+	first, _, _ := clu8LogTypes(g.S)
+	if first <= 1 {
+		rep.Count("snapshot-installed-node:caught-up-by-log-instead")
+		return
+	}
+	idx := g.S.fsmIdx.Load()
+	app := "-"
+	if a := g.S.appendedAtTime.Load(); !a.IsZero() {
+		app = fmt.Sprint(a.UnixNano())
+	}
+	upd := "0"
+	if u := g.S.fsmUpdateTime.Load(); !u.IsZero() {
+		upd = fmt.Sprint(u.UnixNano())
+	}
+	qr := queryRequestFromString("SELECT COUNT(*) FROM c16d", false, false, false)
+	qr.Level, qr.Freshness, qr.FreshnessStrict = proto.ConsistencyLevel_NONE, int64(time.Hour), true
+	_, _, _, qerr := g.S.Query(context.Background(), qr)
+	out := "served"
+	if qerr != nil {
+		out = c16Canon(qerr)
+	}
+	rep.Count("snapshot-installed-node:strict-1h->" + out + ":appendedAt=" + map[bool]string{true: "unset", false: "set"}[app == "-"])
+	rep.Case("snapshot-installed-node|"+out, true)
+	now := time.Now().UnixNano()
+	ops := []string{"bookreset", fmt.Sprintf("bookrestore %d", idx), "book", fmt.Sprintf("bookstale %d %d %d %d true", now, now, idx+1, int64(time.Hour))}
+	impl := []string{"ok", "ok", fmt.Sprintf("%d %s %s", idx, upd, app), vfBool(out == "err:stale")}
+	rep.vfCompare("readlevel", ops, impl, nil)
+}
+
 func TestVerifC16(t *testing.T) {
 	rep := vfNewReport("C16", "A: store.IsStaleRead on boundary-value inputs (freshness incl. 0, ±1, int64 extremes; FSM-update minus appended-at exactly at freshness-2..+2 and saturating; contact age clearly older/younger than the bound, never, in the future; equal/unequal indexes) — non-trivial when freshness is set, distinct by input; B: live cluster, every level x node role (leader / voting follower / non-voter) x freshness {unset,1ns,1ns strict,1h,1h strict} x {Query, read-only Request, Request with a write} — distinct by (api, role, freshness, level, outcome); C: the real Store.fsmApply fed entries of every command type (insert, execute changing nothing, strong read, read-only execute-query, no-op) appended 0 s / 10 s / 2 min earlier, then the strict decision for bounds 1 s / 30 s / 1 h on the store's own bookkeeping — non-trivial when the entry does not change the database")
 	defer rep.Write()
 	c16StalePart(t, rep)
 	c16DispatchPart(t, rep)
 	c16BookPart(t, rep)
+	c16LiveStrictPart(t, rep)
 }
